@@ -558,3 +558,127 @@ Section FlipEnergy.
         exists h, e. split; auto. right. right. repeat split; auto; lia.
   Qed.
 End FlipEnergy.
+
+(* ====================================================================================== *)
+(* The H memo shared by a stream and its proxies is transparent                              *)
+Section CacheProofs.
+  Variable hspec : nat -> vec -> Q -> Q.
+  (* the mixture model is a function of the VALUES of composition and temperature *)
+  Hypothesis hspec_ext : forall ph z z' T T', T == T' -> veqb z z' = true -> hspec ph z T == hspec ph z' T'.
+
+  Definition hkey (k : nat * Q * vec) : Q := let '(ph, T, z) := k in hspec ph z T.
+
+  (* a stored value belongs to the stored key *)
+  Definition cinv (c : hcache) : Prop :=
+    match cH c with
+    | Some v => exists k, ckey c = Some k /\ v == hkey k
+    | None => True
+    end.
+
+  Lemma key_eqb_hkey k k' : key_eqb k k' = true -> hkey k == hkey k'.
+  Proof.
+    destruct k as [[p t] z], k' as [[p' t'] z']. unfold key_eqb, hkey.
+    intros H. apply Bool.andb_true_iff in H. destruct H as (H & Hz).
+    apply Bool.andb_true_iff in H. destruct H as (Hp & Ht).
+    apply Nat.eqb_eq in Hp. subst. apply Qeq_bool_iff in Ht. apply hspec_ext; auto.
+  Qed.
+
+  Lemma get_H_spec c s : cinv c ->
+    fst (get_H hspec c s) == HfunC hspec (pph s) (pmol s) (pT s) /\ cinv (snd (get_H hspec c s)).
+  Proof.
+    intros I. unfold get_H, HfunC.
+    destruct (qzerob (qsum (pmol s))) eqn:Z.
+    - apply qzerob_true in Z. cbn [fst snd]. split; [|exact I].
+      assert (E : forall x, qsum (pmol s) * x == 0) by (intros x; rewrite Z; ring). rewrite E. reflexivity.
+    - unfold cur_key. simpl.
+      destruct (key_hit c s) eqn:K.
+      + destruct (cH c) as [v|] eqn:E.
+        * simpl. split; auto. unfold cinv in I. rewrite E in I. destruct I as (k & Ek & Ev).
+          unfold key_hit in K. rewrite Ek in K. apply key_eqb_hkey in K.
+          assert (K' : hkey (cur_key s) = hspec (pph s) (vdivs (pmol s) (qsum (pmol s))) (pT s)) by reflexivity.
+          rewrite K' in K. rewrite Ev, K. ring.
+        * simpl. split; [ring|]. unfold cinv. simpl. eexists. split; [reflexivity|]. unfold hkey. reflexivity.
+      + simpl. split; [ring|]. unfold cinv. simpl. eexists. split; [reflexivity|]. unfold hkey. reflexivity.
+  Qed.
+
+  Lemma read_other_inv c s : cinv c -> cinv (read_other c s).
+  Proof.
+    intros I. unfold read_other. destruct (qzerob _); auto. destruct (key_hit c s); auto.
+    unfold cinv. simpl. exact Logic.I.
+  Qed.
+
+  (* the same history without any memo *)
+  Definition sstep_ref (s : pstream) (o : sop) : pstream * list Q :=
+    match o with
+    | SReadH => (s, [HfunC hspec (pph s) (pmol s) (pT s)])
+    | SReadOther => (s, [])
+    | SSetT t => (mkP (pmol s) t (pph s), [])
+    | SSetFlows m => (mkP m (pT s) (pph s), [])
+    | SSetPhase ph => (mkP (pmol s) (pT s) ph, [])
+    end.
+  Fixpoint srun_ref (s : pstream) (ops : list sop) : pstream * list Q :=
+    match ops with
+    | [] => (s, [])
+    | o :: t => let (s1, r1) := sstep_ref s o in let (s2, r2) := srun_ref s1 t in (s2, r1 ++ r2)
+    end.
+
+  Lemma srun_transparent ops : forall s c, cinv c ->
+    fst (fst (srun hspec (s, c) ops)) = fst (srun_ref s ops) /\
+    Forall2 Qeq (snd (srun hspec (s, c) ops)) (snd (srun_ref s ops)) /\
+    cinv (snd (fst (srun hspec (s, c) ops))).
+  Proof.
+    induction ops as [|o t IH]; intros s c I; simpl.
+    - repeat split; auto.
+    - destruct o as [| |x|m|ph]; simpl.
+      + destruct (get_H_spec c s I) as (V & I').
+        destruct (get_H hspec c s) as [v c'] eqn:G. simpl in V, I'.
+        destruct (IH s c' I') as (A & B & C).
+        destruct (srun hspec (s, c') t) as [[s2 c2] r2]. destruct (srun_ref s t) as [s3 r3]. simpl in *.
+        repeat split; auto.
+      + destruct (IH s (read_other c s) (read_other_inv c s I)) as (A & B & C).
+        destruct (srun hspec (s, read_other c s) t) as [[s2 c2] r2]. destruct (srun_ref s t) as [s3 r3]. simpl in *. auto.
+      + destruct (IH (mkP (pmol s) x (pph s)) c I) as (A & B & C).
+        destruct (srun hspec (mkP (pmol s) x (pph s), c) t) as [[s2 c2] r2]. destruct (srun_ref _ t) as [s3 r3]. simpl in *. auto.
+      + destruct (IH (mkP m (pT s) (pph s)) c I) as (A & B & C).
+        destruct (srun hspec (mkP m (pT s) (pph s), c) t) as [[s2 c2] r2]. destruct (srun_ref _ t) as [s3 r3]. simpl in *. auto.
+      + destruct (IH (mkP (pmol s) (pT s) ph) c I) as (A & B & C).
+        destruct (srun hspec (mkP (pmol s) (pT s) ph, c) t) as [[s2 c2] r2]. destruct (srun_ref _ t) as [s3 r3]. simpl in *. auto.
+  Qed.
+
+  Lemma cinv_cache0 : cinv cache0.
+  Proof. exact Logic.I. Qed.
+
+  Variable solveP : nat -> vec -> Q -> res Q.
+  Variable hf : vec.
+  Hypothesis solveC_ok : forall ph m h t, solveP ph m h = Ok t -> HfunC hspec ph m t == h.
+
+  Lemma isempty_qsum m : isempty m = true -> qsum m == 0.
+  Proof.
+    induction m as [|x m IH]; simpl; intros H; [reflexivity|].
+    apply Bool.andb_true_iff in H. destruct H as (Zx & Hm). apply qzerob_true in Zx. rewrite Zx, IH; auto. ring.
+  Qed.
+
+  Lemma HfunC_empty ph m t : isempty m = true -> HfunC hspec ph m t == 0.
+  Proof.
+    intros E. unfold HfunC. assert (Z := isempty_qsum m E).
+    assert (F : forall x, qsum m * x == 0) by (intros x; rewrite Z; ring). apply F.
+  Qed.
+
+  (* after ANY history on the stream and its proxies, for ANY reaction step [callf] (same package,
+     other package, any object): a normal return closes the balance *)
+  Lemma adiabatic_cached_lemma is_stream callf s c Qin s' c' :
+    cinv c ->
+    adiabatic_cached hspec solveP hf is_stream callf (s, c) Qin = (None, (s', c')) ->
+    HfunC hspec (pph s') (pmol s') (pT s') + Hf_of hf (pmol s') ==
+      HfunC hspec (pph s) (pmol s) (pT s) + Hf_of hf (pmol s) + Qin
+    /\ callf (pmol s) = (None, pmol s') /\ cinv c'.
+  Proof.
+    intros I. unfold adiabatic_cached. destruct is_stream; simpl; [|discriminate].
+    destruct (get_H_spec c s I) as (V & I1). destruct (get_H hspec c s) as [h0 c1]. simpl in V, I1.
+    destruct (callf (pmol s)) as [[e|] mol'] eqn:C; [discriminate|].
+    destruct (setH_flip solveP _ _) as [e2 s2] eqn:S. intros H; inversion H; subst; clear H.
+    destruct (setH_flip_ok (HfunC hspec) solveP solveC_ok HfunC_empty _ _ _ S) as (M & W). simpl in M.
+    split; [|split; auto; rewrite M; reflexivity].
+    rewrite W, M. simpl. rewrite V. ring.
+  Qed.
+End CacheProofs.
